@@ -154,19 +154,45 @@ def r20_2(ctx: Ctx) -> None:
                "a non-empty output directory (other than ignored entries) is refused unless results are being reused",
                detail="no raise conditioned on `_ignore_patterns` found")
         return
-    lits = {lit for lit in refusal_form[1] if lit[0] == "lit"}
-    reuse = [lit for lit in lits if lit[1].replace('"', "'") == "input_file.endswith('.json')" and lit[2] is False]
-    other = [lit for lit in lits if "_ignore_patterns" in lit[1] and lit[2] is True]
-    if collected is not None:
-        other = [lit for lit in lits if lit[1] == collected[0] and lit[2] is True]
-    # literals that only establish that the directory exists are part of every path to the refusal
-    extra = [lit for lit in lits if lit not in reuse + other and "os.path.exists(name)" not in lit[1]
-             and "os.path.isdir(name)" not in lit[1]]
-    ok = len(reuse) == 1 and len(other) == 1 and not extra and len(lits) == len(refusal_form[1])
+    # the refusal condition as a formula over four kinds of atoms: J (the input is a results file), L (that file lies in
+    # this very directory), F (the directory holds a foreign entry), D (it exists / is a directory - context)
+    def _kind(text: str) -> str:
+        text = text.replace('"', "'")
+        if text == "input_file.endswith('.json')":
+            return "J"
+        if "input_file" in text and ("dirname" in text or "commonpath" in text or "samefile" in text or ".parent" in text) \
+                and "name" in text.replace("dirname", "").replace("basename", ""):
+            return "L"
+        if "_ignore_patterns" in text or (collected is not None and text == collected[0]):
+            return "F"
+        if "os.path.exists(name)" in text or "os.path.isdir(name)" in text:
+            return "D"
+        return "?"
+
+    def _canon(form):
+        if form[0] == "lit":
+            kind = _kind(form[1])
+            return ("lit", kind if kind != "?" else form[1], form[2])
+        return (form[0], frozenset(_canon(sub) for sub in form[1]))
+    canon = _canon(refusal_form)
+    parts = [p for p in canon[1] if not (p[0] == "lit" and p[1] == "D")] if canon[0] == "and" else [canon]
+    got = ("and", frozenset(parts))
+    want = ("and", frozenset([("or", frozenset([("lit", "J", False), ("lit", "L", False)])), ("lit", "F", True)]))
+    try:
+        ok, cex = nnf_equiv(got, want)
+    except ValueError:
+        ok, cex = False, None
+    old_shape = nnf_equiv(got, ("and", frozenset([("lit", "J", False), ("lit", "F", True)])))[0] if not ok else False
     ctx.ob("R20.2", MAIN, refusal, qual, "refusal test", ok,
-           "refuse when the input is not a results file and the directory holds any entry not on the ignore list",
-           detail="" if ok else f"unexpected extra conditions: {extra}" if extra else "conditions not recognised",
-           form=" and ".join(sorted(("" if lit[2] else "not ") + lit[1] for lit in lits)))
+           "a directory holding any entry not on the ignore list is refused, unless the results being reused are the ones it "
+           "holds: the input is a results file *and* lies in this directory",
+           detail="" if ok else ("every results file exempts every directory: `--reuse-results prev/genome.json --output-dir other/` "
+                                 "accepts an unrelated non-empty other/ and deletes its *.region???.gbk files" if old_shape
+                                 else f"differs from the specification at {cex}"),
+           form=str(got)[:200])
+    other = [lit for lit in {l for l in refusal_form[1] if l[0] == "lit"} if "_ignore_patterns" in lit[1] and lit[2] is True]
+    if collected is not None:
+        other = [lit for lit in {l for l in refusal_form[1] if l[0] == "lit"} if lit[1] == collected[0] and lit[2] is True]
     # what the refusal looks at is the complete content of the directory
     listing = other[0][1].replace('"', "'") if other else ""
     if collected is not None:
@@ -198,9 +224,18 @@ def r20_2(ctx: Ctx) -> None:
         if cand.kind != "test" or cand.ast is None or not hasattr(cand.ast, "test") or cand.id == rn:
             continue
         for label, polarity in (("T", True), ("F", False)):
-            for expr, truth in literals(cand.ast.test, polarity):
-                if truth and txt(inline_reaching(cfg, cand.ast, expr)).replace('"', "'") == "input_file.endswith('.json')":
-                    exempt.append((cand.id, label))
+            established = set()
+            todo = list(literals(cand.ast.test, polarity))
+            while todo:
+                expr, truth = todo.pop()
+                resolved = inline_reaching(cfg, cand.ast, expr)
+                if isinstance(resolved, (ast.BoolOp, ast.UnaryOp)) and resolved is not expr and txt(resolved) != txt(expr):
+                    todo += literals(resolved, truth)
+                    continue
+                if truth:
+                    established.add(_kind(txt(resolved)))
+            if {"J", "L"} <= established:
+                exempt.append((cand.id, label))
     for index, call in enumerate(destructive):
         ctx.call_sites += 1
         via_raise = cfg.n(call) in cfg.reach([rn], labels_excluded=["F" if raising_label == "T" else "T"])
@@ -250,6 +285,10 @@ def r20_2(ctx: Ctx) -> None:
                 return ("lit", "is a directory", form[2])
             if "logfile" in text and "os.path.abspath(entry)" in text and text.count("==") == 1:
                 return ("lit", "is the log file", form[2])
+            if text in ("config.logfile", "bool(config.logfile)", "get_config().logfile"):
+                return ("lit", "a log file is configured", form[2])
+            if text in ("config.logfile == ''", "'' == config.logfile"):
+                return ("lit", "a log file is configured", not form[2])
             return form
         return (form[0], frozenset(canon(sub) for sub in form[1]))
     yes = [canon(f) for f in yes]
@@ -257,6 +296,19 @@ def r20_2(ctx: Ctx) -> None:
     a = ("lit", "is the input copy's name", True)
     b = ("lit", "is a directory", True)
     c = ("lit", "is the log file", True)
+    # the option's default is the empty string, and abspath("") is the current directory: the exemption applies only when
+    # a log file is configured (checked against the option table: default of --logfile)
+    default_empty = True
+    try:
+        args_mod = ctx.repo.mod("antismash/config/args.py")
+        for call in [n for n in ast.walk(args_mod.tree) if isinstance(n, ast.Call) and n.args
+                     and isinstance(n.args[0], ast.Constant) and n.args[0].value == "--logfile"]:
+            default = kwarg(call, "default")
+            default_empty = isinstance(default, ast.Constant) and default.value in ("", None) or default is None
+    except AnalysisError:
+        pass
+    if default_empty:
+        c = ("and", frozenset([c, ("lit", "a log file is configured", True)]))
     counted = ("and", frozenset([("or", frozenset([nnf_not(a), nnf_not(b)])), nnf_not(c)]))
     try:
         same_yes, cex1 = nnf_equiv(nnf_or(yes), counted)
